@@ -485,7 +485,12 @@ fn check_balance<'ctx>(
         crate::verif::emit("bk.balanced", || format!("{}", balance.as_inline_display()));
         return Ok(());
     }
-    if let Some((a1, a2)) = balance.maybe_pair() {
+    // implied exchange needs two non-zero amounts with the opposite sign.
+    if let Some((a1, a2)) = balance.maybe_pair().filter(|(a1, a2)| {
+        !a1.value.is_zero()
+            && !a2.value.is_zero()
+            && a1.value.is_sign_positive() != a2.value.is_sign_positive()
+    }) {
         #[cfg(feature = "verif")]
         crate::verif::emit("bk.pair", || format!("{}|{}", a1, a2));
         // fill in converted amount.
